@@ -55,6 +55,18 @@ Lemma cursor_params :
   forallb (fun p => Nat.eqb (snd p) 2) (advance_methods ++ advance_on_success_methods ++ transform_methods) = true.
 Proof. vm_compute. reflexivity. Qed.
 
+(* advance hands back a scalar / None or an object allocated during the call: never the cursor it
+   was given nor any other pre-existing object (no aliasing between handed-out cursors) *)
+Lemma advance_fresh : forallb (fun p => aval_eqb (s_r (slook Sg (fst p))) ANew) advance_methods = true.
+Proof. vm_compute. reflexivity. Qed.
+Lemma returns_fresh n f vs h h' v :
+  aval_eqb (s_r (slook Sg f)) ANew = true -> callsem py_table n f vs h h' (ORet v) ->
+  forall b, v = VRef b -> List.length h <= b.
+Proof.
+  intros E C. destruct (table_sound _ _ _ _ _ _ C) as (_ & G). cbn beta iota in G.
+  apply aval_eqb_eq in E. destruct (s_r (slook Sg f)); try discriminate. exact G.
+Qed.
+
 (* the model can express the defect the property excludes, and the analysis reports it *)
 Definition bad_advance : meth :=
   mkm ["self"; "test_case"; "state"] [] (SSeq (SStore "state" "index") (SReturn "state")).
